@@ -4,10 +4,38 @@ import json, sys
 ALL = ["C%02d" % i for i in range(1, 21)]
 BASE = "cd /repo && go test -mod=mod -vet=off -count=1 -timeout 25m ./..."
 claimed = {
+ "C01": dict(cat="model_checking", ref="5 C01",
+   text="Stateless model checking of the implementation: every 3-node weighted topology (and seven 4-node ones) x every sequence of <=k link down/up/silent, node stop/restart events x every delivery schedule of the flooded routing messages with <=d deviations from the canonical order (state-hash pruning), on real Netceptor objects in a testing/synctest bubble with harness-owned links; after a fair closure every live node's table is compared with Floyd-Warshall on the ground truth (exact reachable set, least-cost next hop, path cost, loop-free walk).",
+   note="Macro-step atomicity (the explorer owns delivery order, timer ticks and events; the Go scheduler orders goroutines inside one delivery); restarts >= 1 virtual second apart; pruning assumes the canonical state determines the future; bounds completed are in the evidence (counters.scenarios_bound_*_complete).",
+   tech="stateless deviation-bounded DFS over delivery schedules of the real code (synctest virtual time) with state-hash pruning"),
+ "C07": dict(cat="exploration", ref="5 C07",
+   text="Bounded-exhaustive message grammar (every length/type byte/JSON shape, every field of routing updates and advertisements absent or wrongly typed, absurd-but-typed updates, every data-packet length and header combination) delivered by a scripted peer to a real node in both protocol phases, one synctest bubble per input; afterwards the node must be alive, not shut down, and answer pings of a well-behaved real neighbour both ways.",
+   note="Inputs are drawn from an explicit grammar, not all byte strings; the harness session stands for every backend (the real TCP/UDP/websocket receive paths only hand datagrams to the same runProtocol loop).",
+   tech="bounded-exhaustive input enumeration against the real protocol loop in a synctest bubble, liveness oracle"),
+ "C08": dict(cat="exploration", ref="5 C08",
+   text="Bounded-exhaustive control-service inputs (plain-text forms, every field of every command absent or of every JSON type, malformed/huge JSON, path-like and on-disk-only unit IDs, disconnects at every 7th prefix, pairs of requests) through the real RunControlSession and Workceptor; ERROR reply demanded where the reference grammar says invalid; liveness probes on the same and on fresh sessions; lock waits are caught by a real-time watchdog with goroutine dump.",
+   note="In-process sessions over an in-memory connection (the Unix/TCP listeners only accept and hand over the connection); scripted in-process work types.",
+   tech="bounded-exhaustive input enumeration through the real control session in a synctest bubble, reference grammar + liveness oracle"),
+ "C09": dict(cat="exploration", ref="5 C09",
+   text="The full product certificate {issuer x validity x EKU x 8 name sets} x 11 pin lists x client/server role x receptor/DNS/no name mode is decided by ReceptorVerifyFunc and compared with the statement's conjunction; the same certificates go through real crypto/tls handshakes using the configurations built by PrepareTLSClientConfig/GetClientTLSConfig/PrepareTLSServerConfig.",
+   note="Go's x509 path building is trusted; absent EKU = unrestricted; the mutually authenticated mesh stream listener (packet source as expected name) is not yet exercised.",
+   tech="exhaustive enumeration of a finite configuration product against a reference decision"),
  "C12": dict(cat="exploration", ref="5 C12",
    text="Bounded-exhaustive: every single firewall rule over the product of 10 pattern kinds per field x 7 actions and every ordered rule list up to length 2 (quick) / 3 (thorough) over a 12-rule core, each on 16 packets, decided against a reference interpreter written from the statement; uninterpretable lists must be refused.",
-   note="Trusts the reference interpreter (Go regexp with ^(?:re)$ anchoring) and that two values per packet field suffice to separate match/no-match for the generated patterns.",
-   tech="bounded-exhaustive enumeration of inputs against a reference model (explicit-state, real code)"),
+   note="Trusts the reference interpreter (Go regexp with ^(?:re)$ anchoring) and that two values per packet field suffice to separate match/no-match for the generated patterns; the rule loop of handleMessageData is replicated at this level.",
+   tech="bounded-exhaustive enumeration of inputs against a reference model (real code)"),
+ "C15": dict(cat="exploration", ref="5 C15",
+   text="Exhaustive product 5 commands x 3 connection kinds x 5 work-type situations x 15 tokens (incl. alg none, HS256 keyed with the public key, swapped payload, other audience, expired) through the real control session with recording in-process units: effect iff the statement allows it, ERROR otherwise.",
+   note="Connection kind is presented through RemoteAddr().Network() of an in-memory connection; RSA-2048 keys.",
+   tech="exhaustive enumeration of a finite configuration product against the statement"),
+ "C19": dict(cat="exploration", ref="5 C19",
+   text="All 64 letter-case spellings of the secret_ prefix, near misses, maps with 0..3 secret and 0..2 plain parameters, with/without TLS profile, followed by every sequence of <=2 (quick) / <=3 (thorough) operations from {status, list, list id, cancel, release, Workceptor restart}; every response byte is scanned for the marker values.",
+   note="Remote node unreachable (the unit stays in the not-yet-started state); the status file on disk is not part of the API.",
+   tech="bounded-exhaustive enumeration of inputs and operation sequences with a marker-scanning oracle"),
+ "C20": dict(cat="exploration", ref="5 C20",
+   text="Every node-ID byte length 0..300 (+1000, 16 K, 64 K boundaries) in ASCII/2-/3-byte UTF-8, invalid UTF-8, lists with duplicates and case variants, DNS and IPv4/IPv6/v4-mapped names, validity windows, crafted certificates with foreign otherName OIDs: names read back must equal names requested, chain to the CA, and receptor's verification accepts exactly the requested IDs.",
+   note="Go's x509 parser is the reference for DNS/IP names.",
+   tech="bounded-exhaustive enumeration of inputs through the real tooling chain with a round-trip oracle"),
 }
 na_reason = "check not built yet in this session; see DESIGN.md for the planned bounded-exhaustive check"
 checks = []
@@ -32,7 +60,7 @@ m = {
    "guard": "verif",
    "enable": "go1.26.8 test -c -tags verif (harness) / go1.26.8 build -tags verif ./cmd/receptor-cl (daemon); done by ./vcheck on every run",
    "baseline_off_cmd": BASE,
-   "source_commits": json.load(open("hook_commits.json")) if __import__("os").path.exists("hook_commits.json") else [],
+   "source_commits": ["c78f4a1"],
    "add_only": True,
  },
  "engines": [
